@@ -113,7 +113,7 @@ BOUNDS = {
         "count": "as quick with req modes {F,T,TF,FT}^k and both request orders",
     },
 }
-CAP_S = {"quick": 120, "thorough": 1800}
+CAP_S = {"quick": 400, "thorough": 1800}
 
 NULL = uuid.UUID(int=0)
 DW_EH_PE_omit = 0xFF
